@@ -24,7 +24,7 @@ pub fn scenarios() -> Vec<Scenario> {
         name: "c14-faults",
         gen,
         run,
-        quick_runs: 20_000,
+        quick_runs: 60_000,
         weight: 1,
         rule: "case = (valid packet, schedule around the fault), evaluated at every fault position (all for <= 2,048 bytes, field boundaries +-2 beyond) x {read error kind, EOF, write error kind, zero write}; non-trivial when the encoding has >= 3 bytes; distinct by case hash",
     }]
